@@ -175,7 +175,14 @@ func GenPFB(t *sim.Tape, maxSegs, maxLen int, allow ...PFBAnomaly) (*PFBStream, 
 		k := t.Choose(len(p.Segs))
 		p.Segs = p.Segs[:k+1]
 		s := &p.Segs[k]
-		if t.Bool(1, 2) {
+		if t.Choose(4) == 3 {
+			// what really turns up where a PFB file is expected: other font and
+			// document formats (none of them starts with the marker byte)
+			m := sim.Pick(t, pfbLookAlikes)
+			s.Marker, s.Type = m[0], m[1]
+			s.Declared = int(uint32(m[2]) | uint32(m[3])<<8 | uint32(m[4])<<16 | uint32(m[5])<<24)
+			s.Data = []byte(m[6:])
+		} else if t.Bool(1, 2) {
 			s.Marker = byte(t.Choose(256))
 			if s.Marker == 0x80 {
 				s.Marker = 0x7f
@@ -191,4 +198,23 @@ func GenPFB(t *sim.Tape, maxSegs, maxLen int, allow ...PFBAnomaly) (*PFBStream, 
 		p.PartialHeader = h[:1+t.Choose(5)]
 	}
 	return p, an
+}
+
+var pfbLookAlikes = []string{
+	"%!PS-AdobeFont-1.0: Test 001.000\n%%Title: Test\n11 dict begin\n/FontName /Test def\ncurrentdict end\ncurrentfile eexec\n0123456789abcdef\n",
+	"%!FontType1-1.0: Test 001.000\n11 dict begin\n",
+	"%!PS-Adobe-3.0 Resource-Font\n%%BeginResource: font Test\n",
+	"%!PS\n/Test 1 def\n",
+	"%PDF-1.7\n%\xe2\xe3\xcf\xd3\n1 0 obj\n",
+	"OTTO\x00\x0b\x00\x80\x00\x03\x00\x30CFF ",
+	"\x00\x01\x00\x00\x00\x0e\x00\x80\x00\x03\x00\x60GDEF",
+	"true\x00\x0e\x00\x80\x00\x03",
+	"wOFF\x00\x01\x00\x00\x00\x00\x12\x34",
+	"StartFontMetrics 4.1\nFontName Test\n",
+	"<?xml version=\"1.0\"?>\n<svg>",
+	"\x1f\x8b\x08\x00\x00\x00\x00\x00\x00\x03",
+	"\x01\x00\x04\x02\x00\x01\x01\x01\x05Test",
+	"\x00\x80\x01\x03\x00\x00\x00abc\x80\x03",
+	"\x80\x80\x01\x03\x00\x00\x00abc\x80\x03",
+	"\r\n\x80\x01\x03\x00\x00\x00abc\x80\x03",
 }
